@@ -9,6 +9,9 @@ use tokio::io::{AsyncRead, AsyncReadExt, AsyncSeek, AsyncSeekExt, ReadBuf};
 use crate::archive_reader::ArchiveReader;
 use crate::ChunkOffset;
 
+// Upper limit of what read_at() allocates before any data has been read.
+const MAX_PREALLOCATION: usize = 1024 * 1024;
+
 /// Wrapper which implements ArchiveReader for any type which implements
 /// tokio AsyncRead and AsyncSeek.
 pub struct IoReader<T>(T);
@@ -34,12 +37,16 @@ where
 
     async fn read_at(&mut self, offset: u64, size: usize) -> Result<Bytes, io::Error> {
         self.0.seek(io::SeekFrom::Start(offset)).await?;
-        let mut buf = BytesMut::with_capacity(size);
+        // The requested size may come straight from an (invalid) archive header. Do not
+        // pre-allocate more than a moderate amount, the buffer grows as data arrives.
+        let mut buf = BytesMut::with_capacity(std::cmp::min(size, MAX_PREALLOCATION));
         while buf.len() < size {
             if self.0.read_buf(&mut buf).await? == 0 {
                 return Err(io::ErrorKind::UnexpectedEof.into());
             }
         }
+        // A buffer which had to grow may have received more than what was asked for.
+        buf.truncate(size);
         Ok(buf.freeze())
     }
 
